@@ -11,14 +11,19 @@ VARIABLES l, c
 
 Out(r) == [x \in DOMAIN r.out |-> Range(r.out[x])]
 
+\* kinds: "ext" search_ext, "recycle" recycle-bin search, "exists", and through the LDAP gateway
+\* (LdapServer::do_op) "ldap" search with an explicit attribute list and "ldapcmp" compare
+\* (ex = compareTrue; ex2 = the answer admitted that the entry exists; f2 = the entry's rdn term)
 LineL1(C, r) ==
   LET S == NProfs(C.acps)  E == NEnts(C.ents)  id == NId(r.id) IN
-  IF r.kind = "exists" THEN L1Exists(S, E, id, r.f, Range(r.m), r.ex)
-  ELSE L1Search(S, E, id, r.f, Range(r.req), r.all, r.kind = "recycle", Out(r))
+  CASE r.kind = "exists" -> L1Exists(S, E, id, r.f, Range(r.m), r.ex)
+    [] r.kind = "ldapcmp" -> /\ L1Exists(S, E, id, r.f, Range(r.m), r.ex)
+                             /\ L1Exists(S, E, id, r.f2, Range(r.m2), r.ex2 /\ ~r.ex)
+    [] OTHER -> L1Search(S, E, id, r.f, Range(r.req), r.all, r.kind = "recycle", Out(r))
 
 LineSig(C, r) ==
   LET S == NProfs(C.acps)  E == NEnts(C.ents)  id == NId(r.id) IN
-  IF r.kind = "exists" THEN "exists-without-readable-candidate"
+  IF r.kind \in {"exists", "ldapcmp"} THEN "exists-without-readable-candidate"
   ELSE LET bad == {x \in DOMAIN r.out : x \notin DOMAIN E \/
                      ~DisclosureOk(S, id, E[x], Out(r)[x], FilterAttrs(r.f), Range(r.req), r.all, r.kind = "recycle")}
            x == CHOOSE y \in bad : TRUE
@@ -27,10 +32,16 @@ LineSig(C, r) ==
 
 LineL2(C, r) ==
   LET S == NProfs(C.acps)  E == NEnts(C.ents)  id == NId(r.id)
-      fa == CodeAttrs(r.f) \cup (IF r.kind = "recycle" THEN {"class"} ELSE {})
-  IN  IF r.kind = "exists" THEN (r.res = "ok" /\ r.ex = L2Exists(S, E, id, fa, Range(r.m)))
-      ELSE IF id.origin # "user" THEN r.res # "ok"
-      ELSE r.res = "ok" /\ Out(r) = L2SearchExt(S, E, id, fa, Range(r.req), r.all, Range(r.m))
+      wrap == IF r.kind \in {"recycle", "ldap", "ldapcmp"} THEN {"class"} ELSE {}
+      fa == CodeAttrs(r.f) \cup wrap
+  IN  CASE r.kind = "exists" -> (r.res = "ok" /\ r.ex = L2Exists(S, E, id, fa, Range(r.m)))
+        \* (the gateway's identities carry resource limits, which are not modelled: a refusal is accepted)
+        [] r.kind = "ldapcmp" -> r.res = "ok" =>
+                                 /\ r.ex = L2Exists(S, E, id, fa, Range(r.m))
+                                 /\ r.ex2 = (r.ex \/ L2Exists(S, E, id, CodeAttrs(r.f2) \cup wrap, Range(r.m2)))
+        [] r.kind = "ldap" -> r.res = "ok" => Out(r) = L2SearchExt(S, E, id, fa, Range(r.req), r.all, Range(r.m))
+        [] OTHER -> IF id.origin # "user" THEN r.res # "ok"
+                    ELSE r.res = "ok" /\ Out(r) = L2SearchExt(S, E, id, fa, Range(r.req), r.all, Range(r.m))
 
 Init == l = 1 /\ c = 0
 Next == /\ l <= Len(Rec)
@@ -38,7 +49,14 @@ Next == /\ l <= Len(Rec)
         /\ c' = IF Rec[l].a = "cfg" THEN l ELSE c
 Spec == Init /\ [][Next]_<<l, c>>
 
+\* remark (not part of the property as stated, never an alarm): the DN of an LDAP result names the entry
+\* by its spn even when no grant covers spn for that entry
+DnRemark(C, r) ==
+  LET S == NProfs(C.acps)  E == NEnts(C.ents)  id == NId(r.id) IN
+  r.kind = "ldap" /\ \E x \in Range(r.dnspn) : x \in DOMAIN E /\ "spn" \notin ReadGrant(S, id, E[x])
+
 Judge == (l <= Len(Rec) /\ Rec[l].a = "search") =>
+           /\ (~DnRemark(Rec[c], Rec[l]) \/ PrintT(<<"REMARK", "C23", l, "ldap-dn-names-spn-without-spn-grant">>))
            /\ (LineL1(Rec[c], Rec[l]) \/ PrintT(<<"L1FAIL", "C23", l, LineSig(Rec[c], Rec[l])>>))
            /\ (LineL2(Rec[c], Rec[l]) \/ PrintT(<<"L2DRIFT", "C23", l>>))
 Consumed == TLCGet("stats").distinct = Len(Rec) + 1 \/ PrintT(<<"NOTCONSUMED", TLCGet("stats").distinct, Len(Rec)>>)
